@@ -1,14 +1,28 @@
 /-
   Property C06 — list diffs are minimal (LCS) and carry adjacent context.
-  Statement file (proofs in JdProofs/LcsProofs.lean; the diffRest part is in JdProofs/DiffPatchList.lean
-  when available).
+  Statement file (proofs in JdProofs/LcsProofs.lean; the context clause is a corollary of the C01
+  list theorem of JdProofs/DiffPatchList.lean).
 
-  Proved here: the model of github.com/yudai/golcs (`lcsValues`, the dynamic-programming table and
+  PART 1 (LCS). The model of github.com/yudai/golcs (`lcsValues`: the dynamic-programming table and
   the back-tracking exactly as the library does them — compared with the real library on every run
   through the diffs it produces) returns a COMMON subsequence of MAXIMAL length. This is the
-  contract on which minimality of the list diff rests.
+  contract on which minimality of the list diff rests. `diffM` in list mode calls `lcsValues` on the
+  hash codes of the elements (`α = UInt64`).
+
+  PART 2 (context clause, labelled as such below). For the documents of the C01 list theorem, the
+  hunks of `a.Diff(b)` apply IN SEQUENCE to `a` under the reference semantics `applyStrictAll`
+  (JdSpec/HunkSem.lean), which checks for each hunk that every before-context line equals the
+  element preceding the edit position (or the array start for the `[` marker) and every
+  after-context line the element following the removed ones (or the array end for `]`). So every
+  context line a list diff carries IS the neighbouring element at the time the hunk applies.
+  Hypotheses: those of `Jd.DPL.diffM_list_correct` (see JdProps/C01.lean).
+
+  NOT CLAIMED HERE: the count "removed = |a| − LCS, added = |b| − LCS for arrays of scalars", and
+  "exactly one line of before- and one of after-context per hunk" as a statement about the shape
+  of the hunks. Both are checked by the oracle on the implementation (exhaustively on small scopes).
 -/
 import JdProofs.LcsProofs
+import JdProofs.DiffPatchList
 
 namespace Jd.Props.C06
 open Jd
@@ -32,5 +46,28 @@ theorem table_is_textbook_recurrence (a b : List α) : lcsLength a b = lcsLenSpe
 /-- the statements are not vacuous: a concrete common subsequence is bounded by the model's LCS -/
 example : ([1, 2, 3] : List Nat).length ≤ (lcsValues [1, 2, 2, 3] [1, 2, 2, 2, 3]).length :=
   lcs_optimal _ _ _ (by decide) (by decide)
+
+/-! ## Part 2 — context clause (corollary of the C01 list theorem) -/
+
+/-- every hunk of a list-mode diff applies to the document it was computed from (as left by the
+    preceding hunks) with its removed values AND its before / after context lines checked against the
+    actual neighbours: the reference interpreter, which rejects any mismatch, accepts the whole diff -/
+theorem context_lines_match_neighbours (L : Jd.Spec.FloatLaws) (o : Opts) (ho : dispatchTag o = .list)
+    (hm : isMerge o = false) (a b : Json)
+    (ha1 : a.listDoc = true) (ha2 : a.wf = true) (ha3 : a.finiteNums = true)
+    (ha4 : Jd.DPL.memOK a = true)
+    (hb1 : b.listDoc = true) (hb2 : b.wf = true) (hb3 : b.finiteNums = true)
+    (hb4 : Jd.DPL.memOK b = true)
+    (H : Jd.DPL.HashOK o a b) (Z : Jd.DPL.ZeroOK a b) :
+    (Jd.Spec.applyStrictAll a (diffM o a b)).isSome = true := by
+  obtain ⟨r, h, _⟩ := Jd.DPL.diffM_list_correct L o ho hm a b ha1 ha2 ha3 ha4 hb1 hb2 hb3 hb4 H Z
+  rw [h]; rfl
+
+/-- not vacuous: the three-hunk example of C01 (one hunk inside a nested list) -/
+example (L : Jd.Spec.FloatLaws) :
+    (Jd.Spec.applyStrictAll Jd.DPL.Example.exA
+      (diffM [] Jd.DPL.Example.exA Jd.DPL.Example.exB)).isSome = true := by
+  obtain ⟨h1, h2, h3, h4, h5, h6, h7, h8, h9, h10⟩ := Jd.DPL.Example.hyps L
+  exact context_lines_match_neighbours L [] rfl rfl _ _ h1 h2 h3 h4 h5 h6 h7 h8 h9 h10
 
 end Jd.Props.C06
